@@ -8,6 +8,7 @@ package ugo
 
 import (
 	"fmt"
+	"reflect"
 	"strconv"
 	"unicode/utf8"
 
@@ -105,7 +106,11 @@ func ToObject(v any) (ret Object, err error) {
 			ret = Undefined
 		}
 	case error:
-		ret = &Error{Message: v.Error(), Cause: v}
+		if isNilPointer(v) {
+			ret = Undefined
+		} else {
+			ret = &Error{Message: v.Error(), Cause: v}
+		}
 	default:
 		if out, ok := registry.ToObject(v); ok {
 			ret, ok = out.(Object)
@@ -206,7 +211,11 @@ func ToObjectAlt(v any) (ret Object, err error) {
 			ret = Undefined
 		}
 	case error:
-		ret = &Error{Message: v.Error(), Cause: v}
+		if isNilPointer(v) {
+			ret = Undefined
+		} else {
+			ret = &Error{Message: v.Error(), Cause: v}
+		}
 	default:
 		if out, ok := registry.ToObject(v); ok {
 			ret, ok = out.(Object)
@@ -217,6 +226,12 @@ func ToObjectAlt(v any) (ret Object, err error) {
 		err = fmt.Errorf("cannot convert to object: %T", v)
 	}
 	return
+}
+
+// isNilPointer reports whether v holds a nil pointer.
+func isNilPointer(v any) bool {
+	rv := reflect.ValueOf(v)
+	return rv.Kind() == reflect.Ptr && rv.IsNil()
 }
 
 // ToInterface tries to convert an Object o to an any value.
